@@ -205,19 +205,23 @@ def run(ctx):
                 depth['n'] -= 1
         E.load_der_public_key = load
         try:
-            res['a'] = E.encrypt_token_and_secret(ka['der'], b'tokA', b'A' * 16)
-            res['b2'] = E.encrypt_token_and_secret(kb['der'], b'tokB2', b'b' * 16)         # a later login to B
-            res['a2'] = E.encrypt_token_and_secret(ka['der'], b'tokA2', b'a' * 16)
+            for nm_, k_, t_, s_ in (('a', ka, b'tokA', b'A' * 16), ('b2', kb, b'tokB2', b'b' * 16), ('a2', ka, b'tokA2', b'a' * 16)):
+                try:                                  # ('b2', 'a2': later logins to B and to A)
+                    res[nm_] = E.encrypt_token_and_secret(k_['der'], t_, s_)
+                except Exception as e_:
+                    res[nm_] = e_                     # judged below: the key holder does not get its values
         finally:
             E.load_der_public_key = real_load
         ctx.case(('overlapping-logins', trial))
         for name, key, tok, sec in (('a', ka, b'tokA', b'A' * 16), ('b', kb, b'tokB', b'B' * 16),
                                     ('b2', kb, b'tokB2', b'b' * 16), ('a2', ka, b'tokA2', b'a' * 16)):
             try:
+                if isinstance(res.get(name), Exception):
+                    raise res[name]
                 et, es = res[name]
                 rt, rs = refcodec.rsa_pkcs1v15_decrypt(key, et), refcodec.rsa_pkcs1v15_decrypt(key, es)
             except Exception as e:
-                rt = rs = repr(e)
+                rt = rs = 'encrypt_token_and_secret raised ' + repr(e)
             if rt != tok or rs != sec:
                 ctx.violation('overlapping logins to two servers: the holder of key %s does not recover token/secret of login %r'
                               % ('A' if key is ka else 'B', name), {'login': name, 'got_token': repr(rt)[:60]},
@@ -296,11 +300,15 @@ def run(ctx):
     import simnet
     from refserver import RefServer
     import minecraft.networking.connection as C
-    for trial in range(ctx.scale(6, 40)):
+    import refproto as rp18
+    for trial in range(ctx.scale(12, 60)):
+        v18 = [757, 757, 47, 47, 340, 578][trial // 2 % 6]      # an independent server of several releases, 1.8 included
+        ka_wide = rp18.layout('keep_alive_cb', v18)[0][1] == 'i64'
+        ka_sb = rp18.packet_id('keep_alive_sb', v18)
         cont = trial % 2 == 1      # the server goes on (encrypted) right after the response, in the same batch
         # (sometimes a plugin request precedes the encryption request in the same batch: its queued answer
         # must not get ahead of the forced, plaintext encryption response)
-        cfg = {'version': 757, 'script': ([('plugin', 7, 'ch', b'x')] if trial % 5 == 4 else []) +
+        cfg = {'version': v18, 'script': ([('plugin', 7, 'ch', b'x')] if trial % 5 == 4 and v18 >= 385 else []) +
                [('encrypt', 'srv', b'tok%d' % trial)] +
                ([('compress', 64)] * (trial % 4 == 3) + [('success',), ('keepalive', 77 + trial)] if cont else []),
                'rsa': rng.choice(['1024', '2048'])}
@@ -309,24 +317,28 @@ def run(ctx):
             cfg['stream_rng'] = random.Random(rng.getrandbits(32))
         with simnet.Net(lambda s_: RefServer(s_, cfg)) as net:
             excs18 = []
-            conn = C.Connection('h', 1, username='u', allowed_versions={757}, handle_exception=lambda e, i: excs18.append(e))
+            conn = C.Connection('h', 1, username='u', allowed_versions={v18}, handle_exception=lambda e, i: excs18.append(e))
             conn.connect()
             net.run_threads()                      # login start -> encryption request -> response; then idle
             srv = cfg['servers'][0]
             if cont:
                 ctx.case(('install-continue', trial))
-                ka = [f for f in srv.frames if f[0] == 'play' and f[1] == 0x0F]
+                ka = [f for f in srv.frames if f[0] == 'play' and f[1] == ka_sb]
+                ka_body = (77 + trial).to_bytes(8, 'big') if ka_wide else refcodec.varint(77 + trial)
                 if excs18 or type(conn.reactor).__name__ != 'PlayingReactor' or not ka or \
-                        ka[0][2] != (77 + trial).to_bytes(8, 'big') or not ka[0][3]:
-                    ctx.violation('the server continues encrypted right after the encryption response (success, keep-alive %d): '
-                                  'client state %s, exceptions %r, play frames seen by the server %r'
-                                  % (77 + trial, type(conn.reactor).__name__, excs18[:1], [(f[1], f[2].hex(), f[3]) for f in ka][:2]),
-                                  {'trial': trial}, key={'kind': 'install-continue'})
+                        ka[0][2] != ka_body or not ka[0][3] or not getattr(srv, 'token_ok', False):
+                    ctx.violation('protocol %d: the server continues encrypted right after the encryption response (success, keep-alive %d): '
+                                  'client state %s, exceptions %r, token recovered by the server: %s, play frames seen by the server %r'
+                                  % (v18, 77 + trial, type(conn.reactor).__name__, excs18[:1], getattr(srv, 'token_ok', None),
+                                     [(f[1], f[2].hex(), f[3]) for f in ka][:2]),
+                                  {'trial': trial, 'version': v18}, key={'kind': 'install-continue', 'version': v18})
                     continue
             ctx.case(('install', trial), sample={'installation': 'LoginReactor', 'key': cfg['rsa']})
-            if srv.secret is None or type(conn.socket).__name__ != 'EncryptedSocketWrapper':
-                ctx.violation('encryption was not installed after the encryption request',
-                              {'trial': trial}, key={'kind': 'install'})
+            if srv.secret is None or type(conn.socket).__name__ != 'EncryptedSocketWrapper' or not getattr(srv, 'token_ok', False):
+                ctx.violation('protocol %d, %s-bit key: encryption was not installed after the encryption request (an independent server: '
+                              'secret recovered=%s, token matches=%s, client errors %r)'
+                              % (v18, cfg['rsa'], srv.secret is not None, getattr(srv, 'token_ok', None), excs18[:1]),
+                              {'trial': trial, 'version': v18}, key={'kind': 'install', 'version': v18})
                 continue
             plain_in = bytes(rng.randrange(256) for _ in range(rng.choice([40, 300, 1500])))
             net.sockets[0].inbox.feed(srv.enc.update(plain_in))
@@ -411,9 +423,9 @@ def run(ctx):
         for tl in range(1, 65):
             token = bytes(rng.randrange(256) for _ in range(tl))
             secret = E.generate_shared_secret()
-            et, es = E.encrypt_token_and_secret(key['der'], token, secret)
             ctx.case(('rsa', name, tl), sample={'key_bits': name, 'token_len': tl})
             try:
+                et, es = E.encrypt_token_and_secret(key['der'], token, secret)
                 rt, rs = refcodec.rsa_pkcs1v15_decrypt(key, et), refcodec.rsa_pkcs1v15_decrypt(key, es)
             except Exception as e:
                 rt = rs = repr(e)
